@@ -12,6 +12,7 @@ func C03(run *report.Run) {
 	c03Schedules(run, acc)
 	c03Synctest(run)
 	c03Histories(run)
+	c03FileBackend(run, acc)
 	acc.flush(run)
 	run.Evals = st.evals + st.retries
 	run.Distinct = st.failing
